@@ -72,7 +72,7 @@ func writeFiles(dir string, m *material, genesisFilter chainhash.Hash) (bPath, f
 		fBody.Write(fh[:])
 	}
 
-	bMagic, fMagic := w.g.P.Net, w.g.P.Net
+	bMagic, fMagic := m.p.Net, m.p.Net
 	bType, fType := byte(headerfs.Block), byte(headerfs.RegularFilter)
 	bVer := byte(0)
 	switch sp.Container {
